@@ -269,16 +269,17 @@ func runC16(c *core.Ctx) {
 		// re-fetch: requester comes from an announcement returned by getAnnounces(id) for the same id; the
 		// code may live in the loop itself or in a helper that the loop runs
 		wf := c14NewView(lp, 4, nil)
-		okRe, okInt := false, false
+		okInt := false
 		for g := range wf.funcs() {
-			if c16RefetchFromAnnouncer(g) {
-				okRe = true
-			}
 			if c16RefetchInterested(g, cbInterested) {
 				okInt = true
 			}
 		}
-		c.Check(okRe, "loop|re-fetch asks a peer that announced the item", "provenance", lp.Pos(), "the re-fetch requester and peer come from one announcement of getAnnounces(id) for the id being queued", "a re-fetch can be sent to a peer that did not announce the item")
+		okRe, whyRe, posRe := c16RefetchFromAnnouncer(wf, annF)
+		if !posRe.IsValid() {
+			posRe = lp.Pos()
+		}
+		c.Check(okRe, "loop|re-fetch asks a peer that announced the item", "provenance", posRe, "the re-fetch requester and peer come from one announcement of getAnnounces(id) for the id being queued", "a re-fetch can be sent to a peer that did not announce the item: "+whyRe)
 		// re-fetched ids come from OnlyInterested
 		c.Check(okInt, "loop|re-fetch only interesting ids", "provenance", lp.Pos(), "the re-fetch loop ranges over the result of OnlyInterested", "ids are re-fetched without having been reported interesting")
 	})
@@ -413,65 +414,170 @@ func c16CaseOver(w *c14View, body *cfg.Block) func(*c14Node) bool {
 	}
 }
 
-// c16RefetchFromAnnouncer: g stores a requester into a per-peer map as M[a.peer] = a.fetchItems and queues
-// the id as R[a.peer] = append(R[a.peer], id), where a is an element of the result of getAnnounces(id)
-// for that same id.
-func c16RefetchFromAnnouncer(g *core.FuncInfo) bool {
-	var annVar, annsVar *types.Var
-	ok := false
-	for _, a := range assignments(g) {
-		ix, isIx := ast.Unparen(a.LHS).(*ast.IndexExpr)
-		if !isIx || a.RHS == nil {
+// c16RefetchFromAnnouncer: the re-fetch groups the ids by the peer of an announcement a and stores
+// a.fetchItems as the requester of that group, where a is an element of the result of getAnnounces(id)
+// for the id that is queued.
+//
+// Decided as provenance on the inlined view wf of the loop, so it does not depend on how the per-peer
+// groups are represented (parallel maps keyed by peer, one map of a small struct filled by an accessor,
+// …) nor on which function holds the code: in the code that the timer case runs,
+//   - every read of announceData.peer and announceData.fetchItems is a read of one and the same
+//     announcement value a (the key of the group and the requester stored for it belong together),
+//   - every definition of a is an element of a list L, and every definition of L is a call with the
+//     single argument id of a function of the package that reads the announce set (getAnnounces),
+//   - that id is what gets queued (appended to a list) in the same code.
+func c16RefetchFromAnnouncer(wf *c14View, annF string) (bool, string, token.Pos) {
+	const peerF, fnF = "gossip/itemsfetcher.announceData.peer", "gossip/itemsfetcher.announceData.fetchItems"
+	lp := wf.Root.Fn
+	p := lp.P
+	// the timer case and the frames it runs
+	var body *cfg.Block
+	for _, b := range lp.CFG().Blocks {
+		cc, _ := b.Stmt.(*ast.CommClause)
+		if b.Kind != cfg.KindSelectCaseBody || !b.Live || cc == nil || cc.Comm == nil {
 			continue
 		}
-		if mv := varOf(g, ix.X); mv != nil {
-			root, path := fieldPath(g, a.RHS)
-			if len(path) == 1 && path[0] == "gossip/itemsfetcher.announceData.fetchItems" {
-				annVar = varOf(g, root)
-				// key is announce.peer
-				r2, p2 := fieldPath(g, ix.Index)
-				if len(p2) == 1 && p2[0] == "gossip/itemsfetcher.announceData.peer" && varOf(g, r2) == annVar && annVar != nil {
-					ok = true
+		ast.Inspect(cc.Comm, func(n ast.Node) bool {
+			if sel, ok := n.(*ast.SelectorExpr); ok {
+				if v, ok := lp.Info().ObjectOf(sel.Sel).(*types.Var); ok && p.ObjName(v) == "time.Timer.C" {
+					body = b
 				}
+			}
+			return true
+		})
+	}
+	if body == nil || wf.Root.blocks[body] == nil {
+		return false, "the loop has no select case on the fetch timer channel", token.NoPos
+	}
+	cc := body.Stmt.(*ast.CommClause)
+	over := c16CaseOver(wf, body)
+	frames := map[*c14Frame]bool{}
+	seen := map[*c14Node]bool{}
+	work := []*c14Node{wf.Root.blocks[body]}
+	for len(work) > 0 {
+		n := work[0]
+		work = work[1:]
+		if seen[n] || over(n) {
+			continue
+		}
+		seen[n] = true
+		frames[n.Fr] = true
+		for _, e := range n.Out {
+			work = append(work, e.To)
+		}
+	}
+	inCase := func(fr *c14Frame, n ast.Node) bool {
+		return fr != wf.Root || (cc.Pos() <= n.Pos() && n.End() <= cc.End())
+	}
+	type read struct {
+		field string
+		root  c14Val
+		plain bool
+		pos   token.Pos
+	}
+	var reads []read
+	var appended []c14Val
+	for _, fr := range wf.Frames {
+		if !frames[fr] {
+			continue
+		}
+		fr := fr
+		ast.Inspect(fr.Fn.Body, func(n ast.Node) bool {
+			if n == nil || !inCase(fr, n) {
+				return n != nil
+			}
+			switch x := n.(type) {
+			case *ast.SelectorExpr:
+				if fld := c14FieldOfSel(fr.Fn, x); fld == peerF || fld == fnF {
+					root, path := fr.fieldPath(x)
+					reads = append(reads, read{fld, root, len(path) == 1 && root.V != nil, x.Pos()})
+				}
+			case *ast.CallExpr:
+				if calleeName(fr.Fn, x) == "builtin.append" && len(x.Args) == 2 && !x.Ellipsis.IsValid() {
+					appended = append(appended, fr.val(x.Args[1]))
+				}
+			}
+			return true
+		})
+	}
+	var a c14Val
+	nPeer, nFn := 0, 0
+	for _, r := range reads {
+		if !r.plain {
+			return false, "the peer / requester is read from something else than a looked-up announcement", r.pos
+		}
+		if a.V == nil {
+			a = r.root
+		} else if !a.same(r.root) {
+			return false, "the peer that keys a request and the requester stored for it are taken from different announcements", r.pos
+		}
+		if r.field == peerF {
+			nPeer++
+		} else {
+			nFn++
+		}
+	}
+	if nPeer == 0 || nFn == 0 {
+		return false, "the timer case does not take both the peer and the requester from an announcement", cc.Pos()
+	}
+	// a is an element of the announcements looked up for one id
+	g := a.Fr.Fn
+	as := assignsToVar(g, a.V)
+	if len(as) == 0 {
+		return false, "the announcement is not a local of the re-fetch code", a.V.Pos()
+	}
+	readsAnnounces := func(cs *core.CallSite) bool {
+		return (cs.Name == "utils/wlru.Cache.Get" || cs.Name == "utils/wlru.Cache.Peek") && fieldNameOf(cs.F, cs.Recv()) == annF
+	}
+	var id c14Val
+	for _, d := range as {
+		var coll ast.Expr
+		if rs, isRange := d.Stmt.(*ast.RangeStmt); isRange && rs.Value != nil && varOf(g, rs.Value) == a.V {
+			coll = rs.X
+		} else if d.RHS != nil {
+			if ix, isIx := ast.Unparen(d.RHS).(*ast.IndexExpr); isIx {
+				coll = ix.X
+			}
+		}
+		lv := c14Val{}
+		if coll != nil {
+			lv = a.Fr.val(coll)
+		}
+		if lv.V == nil {
+			return false, "the announcement is not an element of a looked-up list of announcements", d.Stmt.Pos()
+		}
+		ls := assignsToVar(lv.Fr.Fn, lv.V)
+		if len(ls) == 0 {
+			return false, "the list of announcements is not the result of a lookup in the announce set", d.Stmt.Pos()
+		}
+		for _, l := range ls {
+			var call *ast.CallExpr
+			if l.RHS != nil {
+				call, _ = ast.Unparen(l.RHS).(*ast.CallExpr)
+			}
+			if call == nil || len(call.Args) != 1 {
+				return false, "the list of announcements is not the result of a lookup in the announce set", l.Stmt.Pos()
+			}
+			obj, _ := p.ResolveCallee(lv.Fr.Fn.Info(), call)
+			fn, _ := obj.(*types.Func)
+			h := p.FuncOf(fn)
+			if h == nil || h.Pkg != lp.Pkg || (len(h.CallsMatching(readsAnnounces)) == 0 && len(h.SitesMay(readsAnnounces, 2)) == 0) {
+				return false, "the list of announcements is not the result of a lookup in the announce set", l.Stmt.Pos()
+			}
+			k := lv.Fr.val(call.Args[0])
+			if id.Fr == nil {
+				id = k
+			} else if !id.same(k) {
+				return false, "the announcements are looked up for different ids", l.Stmt.Pos()
 			}
 		}
 	}
-	if !ok {
-		return false
-	}
-	for _, a := range assignsToVar(g, annVar) {
-		if a.RHS == nil {
-			continue
-		}
-		if ix, isIx := ast.Unparen(a.RHS).(*ast.IndexExpr); isIx {
-			annsVar = varOf(g, ix.X)
+	for _, q := range appended {
+		if q.same(id) {
+			return true, "", token.NoPos
 		}
 	}
-	if annsVar == nil {
-		return false
-	}
-	for _, a := range assignsToVar(g, annsVar) {
-		if a.RHS == nil {
-			continue
-		}
-		call := isCallTo(g, a.RHS, fetT+".getAnnounces")
-		if call == nil || len(call.Args) != 1 {
-			continue
-		}
-		// same id as the one queued
-		idv := varOf(g, call.Args[0])
-		for _, b := range assignments(g) {
-			if ix, isIx := ast.Unparen(b.LHS).(*ast.IndexExpr); isIx && b.RHS != nil {
-				if ap := isCallTo(g, b.RHS, "builtin.append"); ap != nil && len(ap.Args) == 2 && varOf(g, ap.Args[1]) == idv && idv != nil {
-					r2, p2 := fieldPath(g, ix.Index)
-					if len(p2) == 1 && varOf(g, r2) == annVar {
-						return true
-					}
-				}
-			}
-		}
-	}
-	return false
+	return false, "the id whose announcements were looked up is not the id that is queued for the chosen peer", a.V.Pos()
 }
 
 // c16RefetchInterested: g ranges over a result of OnlyInterested and looks the announcements of each
